@@ -83,15 +83,23 @@ def kernel_variants(thorough=False):
     return out
 
 
-def make_files(workdir, args, twice=False):
+def make_files(workdir, args, twice=False, lead=False):
     lines = [f"          arg_type(gh_field, gh_real, {acc}, {sp}){',' if i < len(args) - 1 else ''} &"
              for i, (acc, sp) in enumerate(args)]
     with open(os.path.join(workdir, "vkern_mod.f90"), "w", encoding="utf-8") as fh:
         fh.write(KERNEL.format(name="vkern", n=len(args), args="\n".join(lines)))
     flds = [f"f{i + 1}" for i in range(len(args))]
+    if lead:
+        # a kernel that only writes a discontinuous field (its loop is 'discontinuous'), to be fused in front
+        dl = ["          arg_type(gh_field, gh_real, gh_write, w3), &",
+              "          arg_type(gh_field, gh_real, gh_read, w2h) &"]
+        with open(os.path.join(workdir, "dkern_mod.f90"), "w", encoding="utf-8") as fh:
+            fh.write(KERNEL.format(name="dkern", n=2, args="\n".join(dl)))
     alg = ("program alg\n  use constants_mod, only: r_def\n  use field_mod, only: field_type\n"
-           "  use vkern_mod, only: vkern_type\n  implicit none\n"
-           f"  type(field_type) :: {', '.join(flds)}\n  call invoke( vkern_type({', '.join(flds)})" +
+           "  use vkern_mod, only: vkern_type\n" + ("  use dkern_mod, only: dkern_type\n" if lead else "") +
+           "  implicit none\n"
+           f"  type(field_type) :: {', '.join(flds)}, g1, g2\n  call invoke( " +
+           ("dkern_type(g1, g2), " if lead else "") + f"vkern_type({', '.join(flds)})" +
            (f", vkern_type({', '.join(flds)})" if twice else "") + " )\nend program alg\n")
     with open(os.path.join(workdir, "alg.f90"), "w", encoding="utf-8") as fh:
         fh.write(alg)
@@ -233,9 +241,10 @@ def work(job):
     tag, args, seqname, dm = job
     key = {"unit": seqname, "template": tag, "params": {"dm": dm}}
     workdir = tempfile.mkdtemp(prefix="c23_")
-    fuse = seqname.startswith("fuse+")
+    lead = seqname.startswith("lead+")
+    fuse = seqname.startswith("fuse+") or lead
     try:
-        make_files(workdir, args, twice=fuse)
+        make_files(workdir, args, twice=fuse and not lead, lead=lead)
         try:
             _, info = parse(os.path.join(workdir, "alg.f90"), api="dynamo0.3")
             psy = PSyFactory("dynamo0.3", distributed_memory=dm).create(info)
@@ -247,8 +256,14 @@ def work(job):
                 from psyclone.domain.lfric.transformations import LFRicLoopFuseTrans
                 from psyclone.psyir.nodes import Loop
                 lps = [l for l in sched.children if isinstance(l, Loop)]
-                LFRicLoopFuseTrans().apply(lps[0], lps[1])
-            sequences()[seqname[5:] if fuse else seqname](sched)
+                from psyclone.psyir.transformations import TransformationError
+                try:
+                    LFRicLoopFuseTrans().apply(lps[0], lps[1], {"same_space": True} if lead else None)
+                except TransformationError as err:
+                    if not (lead and "same_space" in str(err)):
+                        raise
+                    LFRicLoopFuseTrans().apply(lps[0], lps[1])
+            sequences()[seqname[5:] if fuse else seqname](sched)      # ('fuse+' and 'lead+' are 5 characters)
         st, why = tv.safe_apply(run_seq)
         if st == "refused":
             return [{"key": key, "status": "refused", "why": str(why)[:200]}]
@@ -261,15 +276,17 @@ def work(job):
             if nm in ("GenerationError", "TransformationError", "VisitorError"):
                 return [{"key": key, "status": "refused", "why": f"gen: {nm}: {e}"[:200]}]
             return [{"key": key, "status": "psyclone_error", "why": f"gen: {nm}: {e}"[:300]}]
-        kern = sched.coded_kernels()[0]
-        written = []
-        for a in kern.arguments.args:
-            if a.access.name in ("INC", "READINC", "WRITE", "READWRITE") and a.is_field:
-                fs = a.function_space.orig_name.lower()
-                if a.access.name == "WRITE" and fs not in DISCONTINUOUS:
-                    continue      # GH_WRITE on a continuous space is not an increment (outside the property)
-                written.append((a.name, "map_" + a.function_space.mangled_name, fs in DISCONTINUOUS,
-                                a.access.name, fs))
+        written_of = {}
+        for kern in sched.coded_kernels():
+            written = []
+            for a in kern.arguments.args:
+                if a.access.name in ("INC", "READINC", "WRITE", "READWRITE") and a.is_field:
+                    fs = a.function_space.orig_name.lower()
+                    if a.access.name == "WRITE" and fs not in DISCONTINUOUS:
+                        continue      # GH_WRITE on a continuous space is not an increment (outside the property)
+                    written.append((a.name, "map_" + a.function_space.mangled_name, fs in DISCONTINUOUS,
+                                    a.access.name, fs))
+            written_of[kern.name.lower().replace("_code", "")] = written
     finally:
         shutil.rmtree(workdir, ignore_errors=True)
     out = {"key": key, "nontrivial": True, "h": tv.text_hash(txt), "solver_s": 0.0, "reach": "sat"}
@@ -289,6 +306,7 @@ def work(job):
     nq = 0
     for kc in it.kernel_calls:
         lstack = kc[3]
+        written = written_of.get(kc[1].lower(), [])
         for lp in lstack:
             par = lp["directive"] is not None
             if not par:
@@ -325,7 +343,7 @@ def work(job):
     # directly on a loop whose kernel call passes map(:,cell) / the colours loop is inside the region
     ok = structural_replay(txt, out["key"]["params"])
     out["diff"] = what
-    out["replay_text"] = f"! {what}\n! written arguments: {written}\n" + txt
+    out["replay_text"] = f"! {what}\n! written arguments: {written_of}\n" + txt
     out["status"] = "sat_replayed" if ok else ("sat_not_reproduced" if ok is False else "sat_unreplayable")
     return [out]
 
@@ -369,6 +387,9 @@ def main():
     if tier == "thorough":
         seqs += ["fuse+" + q for q in seqs]
     jobs = [(tag, args, sq, dm) for tag, args in variants for sq in seqs for dm in (False, True)]
+    # a discontinuous kernel fused in front of the variant (the fused loop takes the leading kernel's space)
+    jobs += [(tag, args, "lead+" + sq, False) for tag, args in variants
+             for sq in ("omp_parallel_do", "omp_do+parallel", "acc_loop+parallel", "colour+omp_parallel_do")]
     results = core.pmap(work, jobs)
     flat = []
     for r in results:
